@@ -13,5 +13,7 @@ theorem boxedNoAlloc_eq (esz n size : Nat) (hs : size = n * esz) : boxedNoAlloc 
   simp [Nat.mul_eq_zero]
 theorem boxedNullChecked_eq : boxedNullChecked = true := by bridge_bool [boxedNullChecked]
 theorem boxedDeallocGuard_eq : boxedDeallocGuard = true := by bridge_bool [boxedDeallocGuard]
+/-- the pointer standing in for a zero-size block is aligned for the array -/
+theorem boxedDanglingAligned_eq : boxedDanglingAligned = true := by bridge_bool [boxedDanglingAligned]
 
 end GA.Bridge.HeapGen
